@@ -55,6 +55,9 @@ func runC09B3(c *Ctx, tunnels []*c09tunnel) {
 			c.undecided("C09.B3", t.label+"|relay write", "nothing that copies a stream (a Write of a buffer filled by Read, io.Copy) found in the region of this tunnel")
 		}
 		for _, rd := range t.unmatched {
+			if c09filledAndRelayed(rd) {
+				continue // the hand-written io.ReadFull in a helper: its callers relay the buffer whole (B4 asks where)
+			}
 			name := fnKey(rd.Parent())
 			if rd.Parent() == t.entry {
 				name = t.label + " (handshake relay)"
@@ -75,6 +78,40 @@ func runC09B3(c *Ctx, tunnels []*c09tunnel) {
 	}
 }
 
+// c09filledAndRelayed: rd is the read of a fill helper (c09fillHelper) and every caller of the helper writes the buffer
+// it handed to the helper, whole and unsliced, at a place the call can reach.
+func c09filledAndRelayed(rd *ssa.Call) bool {
+	k, ok := c09fillHelper(rd)
+	if !ok {
+		return false
+	}
+	sites := c09sitesOf(rd.Parent())
+	if len(sites) == 0 {
+		return false
+	}
+	for _, s := range sites {
+		cc := s.Common()
+		if _, isCall := s.(*ssa.Call); !isCall || k >= len(cc.Args) {
+			return false
+		}
+		bufRoots := c09roots(cc.Args[k])
+		relayed := false
+		eachInstr(s.Parent(), func(i ssa.Instruction) {
+			wc, isCall := i.(*ssa.Call)
+			if !isCall {
+				return
+			}
+			if _, wbuf, isWr := c09ioFwd(wc, "Write", 0); isWr && c09meet(c09roots(wbuf), bufRoots) && canReach(s, wc) {
+				relayed = true
+			}
+		})
+		if !relayed {
+			return false
+		}
+	}
+	return true
+}
+
 func c09checkRelay(c *Ctx, name string, r c09relay) {
 	f, rd, call, sl := r.fn, r.rd, r.wr, r.sl
 	okSlice := sl != nil && (sl.Low == nil || isZero(sl.Low)) && sl.High != nil
@@ -84,18 +121,30 @@ func c09checkRelay(c *Ctx, name string, r c09relay) {
 	}
 	// same iteration: the read dominates the write
 	okSlice = okSlice && dominatesInstr(rd, call)
-	accum := false
+	accum, full := false, false
 	if r.rsl != nil {
 		// an accumulating read `m, err := src.Read(buf[n:]); n += m` in a loop, relayed after the loop by ONE write of
 		// buf[0:n]: n counts what all reads returned (round 4)
 		accum = true
 		okSlice = c09accumRelay(r)
+		// ... or the hand-written io.ReadFull: the loop fills the WHOLE buffer (it is left towards the write only when
+		// the counter has reached len(buf)) and the buffer is written unsliced (hardening round 3)
+		if !okSlice && c09fullRelay(r) {
+			okSlice, full = true, true
+		}
 	}
 	c.check("C09.B3", name+"|writes exactly the bytes just read", call.Pos(), okSlice,
 		"the relay must write buf[0:n] with n the count returned by the read of the same buffer in this iteration; anything else drops, duplicates or invents bytes")
 	// short write / write error leave with an error
+	// (the Write itself: call, or the one Write inside the write-through helper that call calls)
+	wcall, wfn := call, f
+	var wparam ssa.Value
+	if r.inner != nil {
+		wcall, wfn = r.inner, r.inner.Parent()
+		_, wparam, _ = c09ioFwd(r.inner, "Write", 0)
+	}
 	var nw, ew, nr ssa.Value
-	for _, ref := range *call.Referrers() {
+	for _, ref := range *wcall.Referrers() {
 		if e, ok := ref.(*ssa.Extract); ok {
 			if e.Index == 0 {
 				nw = e
@@ -115,16 +164,25 @@ func c09checkRelay(c *Ctx, name string, r c09relay) {
 		if !ok || calleeName(&lc.Call) != "builtin.len" || len(lc.Call.Args) != 1 {
 			return false
 		}
+		if wparam != nil {
+			return lc.Call.Args[0] == wparam // inside the helper: the length of the buffer it was handed
+		}
 		return sl != nil && lc.Call.Args[0] == ssa.Value(sl)
 	}
 	isNr := func(v ssa.Value) bool {
+		if wparam != nil {
+			return isLenOfWritten(v)
+		}
+		if full {
+			return c09isLenOf(v, r.rsl.X)
+		}
 		if accum {
 			return sl != nil && (v == sl.High || isLenOfWritten(v)) // the count accumulated over the reads
 		}
 		return nr != nil && (v == nr || isLenOfWritten(v))
 	}
 	shortChecked, errChecked := false, false
-	eachInstr(f, func(j ssa.Instruction) {
+	eachInstr(wfn, func(j ssa.Instruction) {
 		b, ok := j.(*ssa.BinOp)
 		if !ok {
 			return
@@ -139,7 +197,32 @@ func c09checkRelay(c *Ctx, name string, r c09relay) {
 			errChecked = true
 		}
 	})
-	c.check("C09.B3", name+"|short or failed writes end the relay with an error", call.Pos(), shortChecked && errChecked,
+	if r.inner != nil {
+		// the helper's verdict reaches the loop: its last result is an error and the caller compares it with nil
+		var verdict ssa.Value
+		res := wfn.Signature.Results()
+		if res.Len() == 1 && typeStr(res.At(0).Type()) == "error" {
+			verdict = call
+		} else if res.Len() > 1 && typeStr(res.At(res.Len()-1).Type()) == "error" {
+			for _, ref := range *call.Referrers() {
+				if e, ok := ref.(*ssa.Extract); ok && e.Index == res.Len()-1 {
+					verdict = e
+				}
+			}
+		}
+		looked := false
+		if verdict != nil {
+			eachInstr(f, func(j ssa.Instruction) {
+				if b, ok := j.(*ssa.BinOp); ok && (b.Op == token.NEQ || b.Op == token.EQL) && ((b.X == verdict && isNilConst(b.Y)) || (b.Y == verdict && isNilConst(b.X))) {
+					looked = true
+				}
+			})
+		}
+		errChecked = errChecked && looked
+	}
+	// (the whole buffer handed to one Write, as after io.ReadFull: a Write that accepts less returns an error - the
+	// io.Writer contract B4 relies on for the replay of a buffer filled by io.ReadFull)
+	c.check("C09.B3", name+"|short or failed writes end the relay with an error", call.Pos(), (shortChecked || full) && errChecked,
 		"a write that fails or accepts fewer bytes than were read must end the copy (error): continuing silently loses the remainder")
 	// a streaming relay (one Read per iteration) writes what the Read returned before it looks at the Read's error;
 	// a one-shot relay (handshake) may give up on a read error
@@ -238,6 +321,321 @@ func c09accumRelay(r c09relay) bool {
 		return false
 	}
 	return !pathAvoiding(r.rd, r.wr, isAdd)
+}
+
+// c09counterOf: v is a counter of what read rd returned: a merge of the constant 0 and such a counter plus the count
+// of rd. Returns the additions found.
+func c09counterOf(v ssa.Value, rd *ssa.Call) (adds []ssa.Instruction, ok bool) {
+	seen := map[ssa.Value]bool{}
+	var counter func(v ssa.Value) bool
+	counter = func(v ssa.Value) bool {
+		if seen[v] {
+			return true
+		}
+		switch x := v.(type) {
+		case *ssa.Phi:
+			seen[v] = true
+			for _, e := range x.Edges {
+				if !isZero(e) && !counter(e) {
+					return false
+				}
+			}
+			return true
+		case *ssa.BinOp:
+			if x.Op != token.ADD {
+				return false
+			}
+			isCount := func(y ssa.Value) bool {
+				e, ok := y.(*ssa.Extract)
+				return ok && e.Tuple == ssa.Value(rd) && e.Index == 0
+			}
+			if (isCount(x.Y) && counter(x.X)) || (isCount(x.X) && counter(x.Y)) {
+				seen[v] = true
+				adds = append(adds, x)
+				return true
+			}
+		}
+		return false
+	}
+	if !counter(v) || len(adds) == 0 {
+		return nil, false
+	}
+	return adds, true
+}
+
+// c09isLenOf: v is the length of buffer buf: len(x) of a value that denotes the same buffer, or the very value (or
+// constant) the buffer was made with.
+func c09isLenOf(v, buf ssa.Value) bool {
+	br := c09roots(buf)
+	if lc, ok := v.(*ssa.Call); ok && calleeName(&lc.Call) == "builtin.len" && len(lc.Call.Args) == 1 {
+		return c09meet(c09roots(lc.Call.Args[0]), br)
+	}
+	if len(br) == 0 {
+		return false
+	}
+	for _, r := range br {
+		var n ssa.Value
+		switch x := r.(type) {
+		case *ssa.MakeSlice:
+			if x.Len != x.Cap {
+				return false
+			}
+			n = x.Len
+		case *ssa.Slice: // make([]byte, K): a slice of a new array
+			al, isAlloc := x.X.(*ssa.Alloc)
+			if !isAlloc || x.Low != nil || x.High != nil {
+				return false
+			}
+			arr, isArr := al.Type().Underlying().(*types.Pointer).Elem().Underlying().(*types.Array)
+			k, isK := constInt(v)
+			if !isArr || !isK || k != arr.Len() {
+				return false
+			}
+			continue
+		default:
+			return false
+		}
+		if n != v {
+			a, okA := constInt(n)
+			b, okB := constInt(v)
+			if !okA || !okB || a != b {
+				return false
+			}
+		}
+	}
+	return true
+}
+
+// c09nilOperand: fact f says "v is nil" / "v is not nil": v and which.
+func c09nilOperand(f Fact) (v ssa.Value, nonNil, ok bool) {
+	b, isB := f.Cond.(*ssa.BinOp)
+	if !isB || (b.Op != token.EQL && b.Op != token.NEQ) {
+		return nil, false, false
+	}
+	switch {
+	case isNilConst(b.Y):
+		v = b.X
+	case isNilConst(b.X):
+		v = b.Y
+	default:
+		return nil, false, false
+	}
+	return v, (b.Op == token.NEQ) == f.Truth, true
+}
+
+// c09contradicts: the two facts cannot hold together: the same condition with opposite truth, or the nil-ness of the
+// same value stated both ways.
+func c09contradicts(a, b Fact) bool {
+	if a.Cond == b.Cond {
+		return a.Truth != b.Truth
+	}
+	va, na, oka := c09nilOperand(a)
+	vb, nb, okb := c09nilOperand(b)
+	return oka && okb && va == vb && na != nb
+}
+
+// c09factsAt: factsAt(b), sharpened at the merge points on the dominator chain of b: where several edges enter a block
+// (the block behind a loop that is left by its condition AND by `err = rerr; break`), an edge is infeasible when the
+// condition it was taken on, or the value a merge receives on it (an error known to be non-nil there), contradicts what
+// is known at b; when one edge remains, its condition and the facts of its source hold at b as well. Only merges that
+// lie in no loop are resolved (what is known at b about a value then still speaks of the value on that edge).
+func c09factsAt(b *ssa.BasicBlock) []Fact {
+	facts := factsAt(b)
+	for cur, round := b, 0; cur != nil && round < 64; cur, round = cur.Idom(), round+1 {
+		if len(cur.Preds) < 2 {
+			continue
+		}
+		inCycle := false
+		for _, l := range loopsOf(cur.Parent()) {
+			if l.Body[cur] {
+				inCycle = true
+			}
+		}
+		if inCycle {
+			continue
+		}
+		edgeFacts := func(k int) []Fact {
+			p := cur.Preds[k]
+			var out []Fact
+			if n := len(p.Instrs); n > 0 {
+				if iff, ok := p.Instrs[n-1].(*ssa.If); ok && len(p.Succs) == 2 && p.Succs[0] != p.Succs[1] {
+					out = appendCondFacts(out, iff.Cond, p.Succs[0] == cur, 0)
+				}
+			}
+			return append(out, localFactsAt(p)...)
+		}
+		feasible, n := -1, 0
+		for k := range cur.Preds {
+			ef := edgeFacts(k)
+			bad := false
+			for _, f := range facts {
+				for _, e := range ef {
+					if c09contradicts(e, f) {
+						bad = true
+					}
+				}
+				// a merged value that is known (not) nil at b: the edge delivers the opposite
+				if v, nonNil, ok := c09nilOperand(f); ok {
+					if phi, isPhi := v.(*ssa.Phi); isPhi && phi.Block() == cur && k < len(phi.Edges) {
+						in := phi.Edges[k]
+						if nonNil && isNilConst(in) {
+							bad = true
+						}
+						for _, e := range ef {
+							if w, nn, ok := c09nilOperand(e); ok && w == in && nn != nonNil {
+								bad = true
+							}
+						}
+					}
+				}
+			}
+			if !bad {
+				feasible = k
+				n++
+			}
+		}
+		if n == 1 {
+			facts = append(facts, edgeFacts(feasible)...)
+		}
+	}
+	return facts
+}
+
+// c09fullRelay: the hand-written io.ReadFull. The relay reads into the window buf[n:] with n a counter that starts at 0
+// and grows by what every such read returned, the write hands over buf itself, unsliced, outside the read's loop, and
+// wherever the write runs the counter is known to have reached len(buf) (a branch fact: the loop condition
+// `n < len(buf)` was false, or a later test `n != len(buf)` left): every byte of the buffer was filled by the reads.
+func c09fullRelay(r c09relay) bool {
+	win := r.rsl
+	if r.sl != nil || win == nil || win.High != nil {
+		return false
+	}
+	if _, wbuf, ok := c09ioFwd(r.wr, "Write", 0); !ok || !c09meet(c09roots(wbuf), c09roots(win.X)) {
+		return false
+	}
+	if _, ok := c09counterOf(win.Low, r.rd); !ok {
+		return false
+	}
+	for _, l := range loopsOf(r.fn) {
+		if l.Body[r.rd.Block()] && l.Body[r.wr.Block()] {
+			return false
+		}
+	}
+	return c09fullAt(r.wr.Block(), r.rd, win.X)
+}
+
+// c09fullAt: wherever block b runs, the counter of what read rd returned has reached len(buf) (a branch fact).
+func c09fullAt(b *ssa.BasicBlock, rd *ssa.Call, buf ssa.Value) bool {
+	isCounter := func(v ssa.Value) bool {
+		_, ok := c09counterOf(v, rd)
+		return ok
+	}
+	for _, ft := range c09factsAt(b) {
+		b, ok := ft.Cond.(*ssa.BinOp)
+		if !ok {
+			continue
+		}
+		op, x, y := b.Op, b.X, b.Y
+		if c09isLenOf(x, buf) && isCounter(y) {
+			// bound OP counter: mirror
+			x, y = y, x
+			switch op {
+			case token.LSS:
+				op = token.GTR
+			case token.GTR:
+				op = token.LSS
+			case token.LEQ:
+				op = token.GEQ
+			case token.GEQ:
+				op = token.LEQ
+			}
+		}
+		if !isCounter(x) || !c09isLenOf(y, buf) {
+			continue
+		}
+		// counter OP len(buf) with the given truth means counter >= len(buf)
+		switch {
+		case op == token.LSS && !ft.Truth, op == token.GEQ && ft.Truth, op == token.EQL && ft.Truth, op == token.NEQ && !ft.Truth:
+			return true
+		}
+	}
+	return false
+}
+
+// c09fillHelper: rd is the read of a hand-written io.ReadFull that lives in a helper of its own
+// (`func readFull(r io.Reader, buf []byte) (int, error)`): it reads into the window p[n:] of the helper's k-th
+// parameter p, n counts what the reads returned, and every return of the helper either knows the counter has reached
+// len(p) or hands back an error that is not nil there. As seen from its callers the helper is io.ReadFull(r, args[k]).
+func c09fillHelper(rd *ssa.Call) (k int, ok bool) {
+	h := rd.Parent()
+	_, buf, isRd := c09ioFwd(rd, "Read", 0)
+	if h == nil || !isRd {
+		return 0, false
+	}
+	win := c09window(buf)
+	if win == nil || win.High != nil {
+		return 0, false
+	}
+	k = -1
+	for idx, p := range h.Params {
+		if ssa.Value(p) == win.X {
+			k = idx
+		}
+	}
+	if k < 0 {
+		return 0, false
+	}
+	if _, isCounter := c09counterOf(win.Low, rd); !isCounter {
+		return 0, false
+	}
+	res := h.Signature.Results()
+	if res.Len() == 0 || typeStr(res.At(res.Len()-1).Type()) != "error" {
+		return 0, false
+	}
+	good, nRet := true, 0
+	eachInstr(h, func(i ssa.Instruction) {
+		r, isRet := i.(*ssa.Return)
+		if !isRet || len(r.Results) != res.Len() {
+			return
+		}
+		nRet++
+		if c09fullAt(r.Block(), rd, win.X) {
+			return
+		}
+		e := r.Results[len(r.Results)-1]
+		if !c09nonNilAt(e, r.Block()) {
+			good = false
+		}
+	})
+	return k, good && nRet > 0
+}
+
+// c09nonNilAt: the error value e is not nil wherever block b runs: a branch fact says so, it is a freshly made error
+// or a sentinel (a package-level error variable of the standard library, or one of the repository that is assigned once).
+func c09nonNilAt(e ssa.Value, b *ssa.BasicBlock) bool {
+	if isNilConst(e) {
+		return false
+	}
+	for _, f := range c09factsAt(b) {
+		if v, nonNil, ok := c09nilOperand(f); ok && v == e && nonNil {
+			return true
+		}
+	}
+	if sentinelError(e) {
+		return true
+	}
+	if u, ok := e.(*ssa.UnOp); ok && u.Op == token.MUL {
+		if g, isG := u.X.(*ssa.Global); isG && g.Pkg != nil && !strings.HasPrefix(g.Pkg.Pkg.Path(), repoMod) && typeStr(g.Type().(*types.Pointer).Elem()) == "error" {
+			return true
+		}
+	}
+	if call, ok := stripIface(e).(*ssa.Call); ok {
+		switch calleeName(&call.Call) {
+		case "errors.New", "fmt.Errorf":
+			return true
+		}
+	}
+	return false
 }
 
 // ---- B6: Peek --------------------------------------------------------------------------------------------------------
@@ -452,18 +850,44 @@ func runC09B4(t *c09tunnel) {
 		if !ok {
 			return
 		}
-		n := calleeName(&call.Call)
-		if n != "io.ReadFull" && n != "io.ReadAtLeast" {
+		var bufRoots map[c09key]ssa.Value
+		if n := calleeName(&call.Call); (n == "io.ReadFull" || n == "io.ReadAtLeast") && len(call.Call.Args) >= 2 {
+			bufRoots = c09roots(call.Call.Args[1])
+		} else if _, args, isRd := c09ioCall(&call.Call, "Read"); isRd && len(args) == 1 && c09isByteSlice(args[0].Type()) && !c09forwardingRead(f, call) {
+			// the hand-written io.ReadFull: a Read into a window buf[n:] whose lower bound counts what the reads
+			// returned collects one message in buf (hardening round 3)
+			win := c09window(args[0])
+			if win == nil {
+				return
+			}
+			if _, isCounter := c09counterOf(win.Low, call); !isCounter {
+				return
+			}
+			bufRoots = c09roots(win.X)
+		} else {
 			return
 		}
-		bufRoots := c09roots(call.Call.Args[1])
 		isReplay := func(j ssa.Instruction) bool {
 			wc, ok := j.(*ssa.Call)
 			if !ok {
 				return false
 			}
-			recv, args, ok := c09ioCall(&wc.Call, "Write")
-			return ok && len(args) == 1 && isUp(recv) && c09meet(c09roots(args[0]), bufRoots)
+			if recv, wbuf, ok := c09ioFwd(wc, "Write", 0); ok {
+				return isUp(recv) && c09meet(c09roots(wbuf), bufRoots)
+			}
+			// io.Copy(upstream, bytes.NewReader(buf)): the buffer handed over through a reader that delivers exactly it
+			if c09copyFns[calleeName(&wc.Call)] && len(wc.Call.Args) >= 2 && calleeName(&wc.Call) != "io.CopyN" && isUp(wc.Call.Args[0]) {
+				rs := c09roots(wc.Call.Args[1])
+				all := len(rs) > 0
+				for _, rv := range rs {
+					nr, isCall := rv.(*ssa.Call)
+					if !isCall || len(nr.Call.Args) != 1 || !(calleeName(&nr.Call) == "bytes.NewReader" || calleeName(&nr.Call) == "bytes.NewBuffer") || !c09meet(c09roots(nr.Call.Args[0]), bufRoots) {
+						all = false
+					}
+				}
+				return all
+			}
+			return false
 		}
 		replay := false
 		eachInstrOf(t.reg, func(g *ssa.Function, j ssa.Instruction) {
